@@ -84,6 +84,52 @@ theorem C17_deserialize_is_map_new (P : Payload α σ ε δ) (h : Heap α) (d : 
     (UniqueArc.deserialize P h d).2 = (P.deserialize d).map (fun v => (Handle.new h v).2) := by
   cases hd : P.deserialize d <;> simp [Arc.deserialize, UniqueArc.deserialize, hd, Except.map]
 
+/-- **C17_in_place_fresh_sole_owner.**  The in-place entry point (`Deserialize::deserialize_in_place`,
+not overridden — `obl_serde_impl_forms` — hence serde's `*place = deserialize(d)?`): whenever the
+payload's own deserialiser yields `v`, afterwards `place` holds a handle to a **new** block with count 1
+and value `v`; the allocation `place` referred to before lost exactly one owner and kept its value (so
+every other owner still sees the old value); every other old block is untouched. -/
+theorem C17_in_place_fresh_sole_owner (P : Payload α σ ε δ) (h : Heap α) (place : Handle α) (d : δ) (v : α)
+    (b : Block α) (hb : h.blocks[place.idx]? = some b) (hv : P.deserialize d = .ok v) :
+    ∀ r ∈ [Arc.deserializeInPlace P h place d, UniqueArc.deserializeInPlace P h place d],
+      r.2.1 = .ok () ∧ r.2.2.idx = h.blocks.length ∧ r.2.2.val = v ∧
+        r.1.blocks[h.blocks.length]? = some ⟨1, v⟩ ∧
+        r.1.blocks[place.idx]? = some ⟨b.count - 1, b.value⟩ ∧
+        r.1.blocks.length = h.blocks.length + 1 ∧
+        ∀ i, i < h.blocks.length → i ≠ place.idx → r.1.blocks[i]? = h.blocks[i]? := by
+  intro r hr
+  have hlt : place.idx < h.blocks.length := by
+    rcases Nat.lt_or_ge place.idx h.blocks.length with h1 | h1
+    · exact h1
+    · rw [List.getElem?_eq_none h1] at hb; cases hb
+  have hb' : (h.blocks ++ [⟨1, v⟩])[place.idx]? = some b := by
+    rw [List.getElem?_append_left hlt]; exact hb
+  have hr' : r = ((⟨(h.blocks ++ [(⟨1, v⟩ : Block α)]).set place.idx ⟨b.count - 1, b.value⟩⟩ : Heap α), .ok (),
+      (⟨h.blocks.length, v⟩ : Handle α)) := by
+    simp only [List.mem_cons, List.mem_nil_iff, or_false] at hr
+    rcases hr with rfl | rfl
+    · simp [Arc.deserializeInPlace, Arc.deserialize, hv, Handle.new, Heap.release, hb']
+    · simp [UniqueArc.deserializeInPlace, UniqueArc.deserialize, hv, Handle.new, Heap.release, hb']
+  subst hr'
+  have hne : place.idx ≠ h.blocks.length := by omega
+  refine ⟨rfl, rfl, rfl, ?_, ?_, ?_, ?_⟩
+  · show ((h.blocks ++ [(⟨1, v⟩ : Block α)]).set place.idx ⟨b.count - 1, b.value⟩)[h.blocks.length]? = _
+    rw [List.getElem?_set_ne hne]; simp
+  · show ((h.blocks ++ [(⟨1, v⟩ : Block α)]).set place.idx ⟨b.count - 1, b.value⟩)[place.idx]? = _
+    rw [List.getElem?_set_self (by simp; omega)]
+  · simp
+  · intro i hi hne'
+    show ((h.blocks ++ [(⟨1, v⟩ : Block α)]).set place.idx ⟨b.count - 1, b.value⟩)[i]? = _
+    rw [List.getElem?_set_ne (fun e => hne' e.symm), List.getElem?_append_left hi]
+
+/-- **C17_in_place_error.**  Whenever the payload's own deserialiser fails with `e`, the in-place entry
+point fails with the same `e`, the heap is unchanged and `place` still holds the handle it held. -/
+theorem C17_in_place_error (P : Payload α σ ε δ) (h : Heap α) (place : Handle α) (d : δ) (e : ε)
+    (he : P.deserialize d = .error e) :
+    Arc.deserializeInPlace P h place d = (h, .error e, place) ∧
+    UniqueArc.deserializeInPlace P h place d = (h, .error e, place) := by
+  simp [Arc.deserializeInPlace, UniqueArc.deserializeInPlace, Arc.deserialize, UniqueArc.deserialize, he]
+
 /-! ## non-vacuity: the concrete recording instance meets the hypotheses, with and without failure -/
 
 /-- `(7u32, "ab")` -/
